@@ -657,12 +657,15 @@ func (e *engine) smsExclusion(kindA, kindB string) {
 }
 
 func (e *engine) runC31() {
-	e.rep.Rule = "scheduled scenarios on real solicitMountedStream values created by the real resolveMatch (0–4 matching directives with different peer/transport constraints among non-matching ones), AcceptMountedStream calls parked at the gate before the mutex while other accepts/closes run; every call result and the guarded state compared with the Lean LTS; plus unscheduled concurrent storms checked for linearizability against the LTS; monitors: one owner per stream, never returned after close, never closed after accept; distinct = distinct op line + script"
+	e.rep.Rule = "scheduled scenarios on real solicitMountedStream values created by the real resolveMatch (0–4 matching directives with different peer/transport constraints among non-matching ones), AcceptMountedStream calls parked at the gate before the mutex while other accepts/closes run; every call result and the guarded state compared with the Lean LTS; plus unscheduled concurrent storms checked for linearizability against the LTS; monitors: one owner per stream, never returned after close, never closed after accept; plus, on a real controllerbus with the real solicit controller, equivalent SolicitProtocol directives merged into one instance with 2-3 references (and the non-equivalent twin, a late reference), every reference accepting / closing from its callback and from 1-4 racing goroutines: at most one call over all references is handed the stream, closed exactly once iff unowned and Close was called; distinct = distinct op line + script"
 	e.rep.Require("sms.sched", "sms.storm", "sms.storm-slowclose", "sms.exclusion", "sms.inflight", "sms.inflight-race", "sms.refuse", "sms.refuse-bus",
 		"inflight.close-in-flight", "inflight.several-accepts", "refuse.all", "refuse.none", "refuse.last-visited", "refuse.first-visited", "refuse.middle",
 		"consumer.immediate", "consumer.late", "consumer.never", "refuse.bus-mixed", "refuse.bus-last-visited", "refuse.bus-last-takes", "refuse.bus-all", "accept.stream", "accept.already", "accept.err", "accept.nil",
 		"close.true", "close.false", "resolve.zero", "resolve.one", "resolve.multi",
 		"race.close-while-accept-parked", "race.two-accepts-parked")
+	// a merged directive (several references on one instance) on a real bus with the real controller (realbus.go)
+	e.rep.Require("sms.merged-bus", "merge.one-instance", "merge.both-refs-accept", "merge.concurrent-callers", "merge.twin-two-instances",
+		"merge.accept-won", "merge.close-won", "merge.close-after-accept", "merge.accept-after-close", "merge.late-reference")
 	// the schedules the property names, every run
 	e.smsSched([]string{"r1"}, []string{"B0.0", "C0.0", "F0"}, "accept-parked-close-runs")
 	e.smsSched([]string{"r2"}, []string{"B0.0", "F0", "B0.1", "F0"}, "two-directives-both-accept")
@@ -713,6 +716,7 @@ func (e *engine) runC31() {
 	e.runC31Extra()
 	e.smsStorms(false)
 	e.smsStorms(true)
+	e.runC31Merged()
 }
 
 // smsStorms: unscheduled concurrency. All calls start at a barrier; the gate yields randomly.
@@ -1469,10 +1473,15 @@ func (e *engine) holdRealBus(steps []string, label string) {
 }
 
 func (e *engine) runC33() {
-	e.rep.Rule = "scheduled scenarios on the real establishLinkHandler attached by the real Controller.HandleDirective to a fake directive instance that counts non-weak references: add / non-link add / remove / instance release / disposed callbacks interleaved with the acquire and release goroutines, which are parked at gates and run one at a time in a seeded random order; the guarded fields, pending goroutines and reference count after EVERY step compared with the Lean LTS; plus unscheduled concurrent add/remove storms compared at quiescence; monitor: at every quiescent point the instance holds one strong reference iff a link is live; distinct = distinct op line"
+	e.rep.Rule = "scheduled scenarios on the real establishLinkHandler attached by the real Controller.HandleDirective to a fake directive instance that counts non-weak references: add / non-link add / remove / instance release / disposed callbacks interleaved with the acquire and release goroutines, which are parked at gates and run one at a time in a seeded random order; the guarded fields, pending goroutines and reference count after EVERY step compared with the Lean LTS; plus unscheduled concurrent add/remove storms compared at quiescence; monitor: at every quiescent point the instance holds one strong reference iff a link is live; plus, on a real controllerbus, 2-3 link requests (same target with and without a source peer, another target) on ONE hold-open controller, link values added / removed on each in seeded random interleavings with the acquire goroutines parked and run in random order, the controller joining before / after / while the values exist, concurrent storms; per request at quiescent points: the requester drops its reference and the real instance stays referenced iff it has a link (CloseIfUnreferenced), expired requests are made again; distinct = distinct op line"
 	e.rep.Require("hold.sched", "hold.storm", "hold.exclusion", "hold.realbus", "quiescent", "add.spawn", "add.nospawn", "add.other", "remove.release",
 		"remove.keep", "remove.last-unheld", "remove.spurious", "acquire.take", "acquire.skip-nolinks", "acquire.skip-held",
 		"release.live", "release.dead", "instance.released", "disposed.release", "disposed.noref", "acquire.take-dead")
+	// several link requests on one hold-open controller; link values that exist before the controller (realbus.go)
+	e.rep.Require("hold.multibus", "hold.multistorm", "multi.probe-held", "multi.probe-expired", "multi.recreated-held",
+		"multi.same-target-independent", "multi.two-targets-independent", "multi.acquires-parked-two-instances",
+		"pre.kept", "pre.removed-before-join", "pre.removed-after-join", "pre.replay-acquire-parked",
+		"multistorm.join-race", "multistorm.join-after")
 	// the schedules the property names, every run
 	e.holdSched([]string{"add", "rm", "acq"}, "remove-before-acquire")
 	e.holdSched([]string{"add", "add", "acq", "acq", "rm", "rm", "rel"}, "two-adds-before-acquire")
@@ -1541,6 +1550,7 @@ func (e *engine) runC33() {
 		e.holdRealBus(steps, "random")
 	}
 	e.holdStorms()
+	e.runC33Multi()
 }
 
 // holdStorms: unscheduled concurrency on one handler, several rounds; compared at quiescence.
